@@ -555,6 +555,33 @@ end
 
 end fns
 
+/-! ### One parsed instance evaluated again and again
+
+The hub parses an expression once and evaluates that instance at every change. The stateless fragment keeps nothing
+between evaluations: the instance may remember whatever it likes (`seen`), the outcome never looks at it. -/
+
+/-- A parsed expression instance together with everything it has been evaluated against so far. -/
+structure Instance (α : Type) where
+  expr : Expr
+  seen : List (Ctx α × Res α)
+
+section
+variable [PyFloat α]
+
+/-- `await instance.eval(context)`: the outcome, and the instance afterwards. -/
+def Instance.step (i : Instance α) (c : Ctx α) : Instance α × Res α :=
+  ({ i with seen := i.seen ++ [(c, eval i.expr c)] }, eval i.expr c)
+
+/-- the outcomes of evaluating the same instance under a sequence of contexts -/
+def Instance.run : Instance α → List (Ctx α) → List (Res α)
+  | _, [] => []
+  | i, c :: cs => (i.step c).2 :: Instance.run (i.step c).1 cs
+
+/-- a freshly parsed instance -/
+def Instance.fresh (e : Expr) : Instance α := ⟨e, []⟩
+
+end
+
 /-! ### Syntactic footprints used by the frame theorem and by well-formedness -/
 
 mutual
